@@ -20,16 +20,18 @@ vars == <<q, phase, res, cmp>>
 
 Graphs == GraphFamily(Family, RndN, RndK)
 
-Inputs == IF Mode = "id"
-          THEN {[g |-> G, x |-> p[1], y |-> p[2], z |-> {}] : G \in Graphs, p \in Queries(Pick(Graphs))}
-          ELSE {[g |-> G, x |-> p[1], y |-> p[2], z |-> p[3]] : G \in Graphs, p \in CQueries(Pick(Graphs))}
+Inputs ==
+  CASE Mode = "tian" -> UNION {{[g |-> G, t |-> p[1], c |-> p[2], topo |-> o] : p \in TianPairs(G), o \in TopoOrders(G)} : G \in Graphs}
+    [] Mode = "id"   -> UNION {{[g |-> G, x |-> p[1], y |-> p[2], z |-> {}] : p \in Queries(G)} : G \in Graphs}
+    [] Mode = "idc"  -> UNION {{[g |-> G, x |-> p[1], y |-> p[2], z |-> p[3]] : p \in CQueries(G)} : G \in Graphs}
 
 Init == /\ q \in Inputs /\ phase = "chosen" /\ res = Fail /\ cmp = <<>>
 
-Truth(i) == IF i.z = {} THEN TruthDo(i.x, i.y, 0) ELSE TruthCDo(i.x, i.y, i.z, 0)
+Truth(i) == IF Mode = "tian" THEN TruthDo(i.g.n \ i.c, i.c, 0) ELSE IF i.z = {} THEN TruthDo(i.x, i.y, 0) ELSE TruthCDo(i.x, i.y, i.z, 0)
 
 Run == /\ phase = "chosen" /\ phase' = "done" /\ q' = q
-       /\ LET r == IF Mode = "id" THEN IDRef(q.g, q.x, q.y) ELSE IDCf(q.g, q.x, q.y, q.z) IN
+       /\ LET r == IF Mode = "tian" THEN TianIdentify(q.g, q.c, q.t, QLemma1(q.g.n, q.t, q.topo), q.topo)
+                   ELSE IF Mode = "id" THEN IDRef(q.g, q.x, q.y) ELSE IDCf(q.g, q.x, q.y, q.z) IN
           /\ res' = r
           /\ cmp' = IF IsFail(r) \/ ~Check THEN <<>>
                     ELSE LET sd == SetToSeq(Seeds)
@@ -53,6 +55,8 @@ Complete == (Done /\ Mode = "id") =>
             /\ IsFail(res) = ~TianOK(q.g, q.x, q.y)
             /\ IsFail(res) = HedgeEx(q.g, q.x, q.y)
 \* vocabulary (C06): observational terms over the graph's nodes only
+\* Tian mode: IDENTIFY fails exactly when TIdent says so; the c-factor of T itself (Lemma 1) denotes Q[T]
+TianComplete == (Done /\ Mode = "tian") => IsFail(res) = ~TIdent(q.g, q.c, q.t)
 Vocab == (Done /\ ~IsFail(res)) => ObsOnly(res, q.g.n)
 
 Emit == Done => PrintT(<<"IDQ", ToJson([g |-> [n |-> q.g.n, d |-> q.g.d, b |-> q.g.b],
